@@ -181,11 +181,12 @@ example : ((runF true init (.addNet :: pairOps 3 0)).pages.map (fun p => (p.pgno
 
 /-! ## statements kept visible, not proved -/
 
-/-- `hi_subno_agrees` WITHOUT the hypothesis `Tame`.  Expected FALSE on the shape as found: with finding F17 a sender
-    reaches 65536 cached versions of one page number (131072 page transmissions), `n_subpages` wraps to 0, the next store
-    restarts the range (`1 == ps->n_subpages`) although 65536 versions with other sub-page numbers are cached.  The witness
-    is too long for `decide` and for a replay per run.  On the repaired shape the number of CACHED versions is bounded
-    (`version_bound_repaired`), what remains are replaced versions still held by a client (one reference each). -/
+/-- `hi_subno_agrees` WITHOUT the hypothesis `Tame`.  **FALSE, on both source shapes** (settled in round 5, Props/C10Hi.lean
+    `hi_subno_agrees_full_counterexample`): `n_subpages` counts the allocated versions - replaced ones still held by a
+    client included - so a client holding 65536 references on versions of one page number makes the `uint16_t` counter read
+    0 and the next store restarts the range (`1 == ps->n_subpages`) below the sub-page number of a version that is still
+    cached and retrievable.  (Round 3 expected the failure on the shape as found only, through finding F17.)  What holds for
+    every history of the repaired shape: `hi_subno_agrees_refbound` (fewer than 65280 page references held at any time). -/
 def hi_subno_agrees_full : Prop :=
   ∀ (fix : Bool) (ops : List Op) (n : Net) (p : Page), n ∈ (runF fix init ops).nets → p ∈ (runF fix init ops).pages →
     p.net = n.id → p.subno ≤ (n.getStat p.pgno).subMax
